@@ -180,11 +180,11 @@ class Harness(object):
             self.flags.add('withdraw_exact_balance')
 
     def op_create(self, op, before):
-        pid = 'p%d' % len(self.cash)
-        if len(self.cash) >= 4:
+        pid = op[1] if len(op) > 1 else 'p%d' % len(self.cash)
+        if len(self.cash) >= 4 or pid in self.cash:
             return
         self.valid_ops += 1
-        self.b.create_portfolio(pid)
+        self.b.create_portfolio(int(pid) if pid.isdigit() else pid)
         self._tap(pid)
         self.cash[pid] = F(0)
         self.pend[pid] = []
@@ -310,6 +310,134 @@ class Harness(object):
 
     def op_getters(self, op, before):
         pass
+
+    # ------------------------------------------------------------------------------------------ invalid requests (C15)
+    BAD_KINDS = ['neg_asub', 'neg_awd', 'over_awd', 'neg_psub', 'over_psub', 'unk_psub', 'neg_pwd', 'over_pwd',
+                 'unk_pwd', 'dup', 'dup_int', 'unk_order', 'cur', 'cur_ctor', 'neg_init', 'unk_get_cash', 'unk_get_mv',
+                 'unk_get_equity', 'unk_get_dict', 'early_sub', 'early_wd', 'early_txn', 'early_mark', 'neg_mark',
+                 'p_neg_sub', 'p_neg_wd', 'p_over_wd', 'multi_unk_neg', 'lead_psub', 'lead_pwd']
+
+    def op_bad(self, op, before):
+        """An invalid request: must raise the documented error type and leave the deep snapshot unchanged."""
+        _, kind, pi, x = op
+        q, b = self.q, self.b
+        pid = self._pid(pi)
+        port = b.portfolios[pid] if pid else None
+        cur = b.base_currency
+        VE, KE = (ValueError,), (KeyError,)
+        call, exp = None, VE
+        if kind == 'neg_asub':
+            call = lambda: b.subscribe_funds_to_account(-x)
+        elif kind == 'neg_awd':
+            call = lambda: b.withdraw_funds_from_account(-x)
+        elif kind == 'over_awd':
+            call = lambda: b.withdraw_funds_from_account(b.get_account_cash_balance(cur) + x)
+        elif kind == 'unk_psub':
+            call, exp = (lambda: b.subscribe_funds_to_portfolio('nope', min(x, b.get_account_cash_balance(cur)))), KE
+        elif kind == 'unk_pwd':
+            call, exp = (lambda: b.withdraw_funds_from_portfolio('nope', x)), KE
+        elif kind == 'unk_order':
+            call, exp = (lambda: b.submit_order('nope', q.Order(b.current_dt, self.assets[0], 5))), KE
+        elif kind == 'cur':
+            call = lambda: b.get_account_cash_balance('XYZ')
+        elif kind == 'cur_ctor':
+            call = lambda: q.SimulatedBroker(b.current_dt, b.exchange, self.dh, base_currency='XYZ')
+        elif kind == 'neg_init':
+            call = lambda: q.SimulatedBroker(b.current_dt, b.exchange, self.dh, initial_funds=-x)
+        elif kind == 'unk_get_cash':
+            call = lambda: b.get_portfolio_cash_balance('nope')
+        elif kind == 'unk_get_mv':
+            call, exp = (lambda: b.get_portfolio_total_market_value('nope')), KE
+        elif kind == 'unk_get_equity':
+            call, exp = (lambda: b.get_portfolio_total_equity('nope')), KE
+        elif kind == 'unk_get_dict':
+            call, exp = (lambda: b.get_portfolio_as_dict('nope')), KE
+        elif kind == 'multi_unk_neg':
+            call, exp = (lambda: b.subscribe_funds_to_portfolio('nope', -x)), VE + KE
+        elif pid is None:
+            return
+        elif kind == 'neg_psub':
+            call = lambda: b.subscribe_funds_to_portfolio(pid, -x)
+        elif kind == 'over_psub':
+            call = lambda: b.subscribe_funds_to_portfolio(pid, b.get_account_cash_balance(cur) + x)
+        elif kind == 'neg_pwd':
+            call = lambda: b.withdraw_funds_from_portfolio(pid, -x)
+        elif kind == 'over_pwd':
+            call = lambda: b.withdraw_funds_from_portfolio(pid, max(0.0, port.cash) + x)
+            if port.cash < 0:
+                self.flags.add('over_pwd_with_negative_cash')
+        elif kind == 'dup':
+            call = lambda: b.create_portfolio(pid)
+        elif kind == 'dup_int':
+            if '1234' not in b.portfolios:
+                return
+            call = lambda: b.create_portfolio(1234)
+        elif kind in ('early_sub', 'early_wd', 'early_txn', 'early_mark'):
+            et = port.current_dt - pd.Timedelta(minutes=1 if x < 50 else 1440)
+            if kind == 'early_sub':
+                call = lambda: port.subscribe_funds(et, x)
+            elif kind == 'early_wd':
+                call = lambda: port.withdraw_funds(et, 0.0)
+            elif kind == 'early_txn':
+                call = lambda: port.transact_asset(q.Transaction(self.assets[0], 5, et, 10.0, 'early', commission=0.0))
+            else:
+                if not port.pos_handler.positions:
+                    return
+                a = next(iter(port.pos_handler.positions))
+                call = lambda: port.update_market_value_of_asset(a, 10.0, et)
+        elif kind == 'neg_mark':
+            if not port.pos_handler.positions:
+                return
+            a = next(iter(port.pos_handler.positions))
+            call = lambda: port.update_market_value_of_asset(a, -max(x, 0.01), max(b.current_dt, port.current_dt))
+        elif kind == 'p_neg_sub':
+            call = lambda: port.subscribe_funds(port.current_dt, -max(x, 0.01))
+        elif kind == 'p_neg_wd':
+            call = lambda: port.withdraw_funds(port.current_dt, -max(x, 0.01))
+        elif kind == 'p_over_wd':
+            call = lambda: port.withdraw_funds(port.current_dt, max(0.0, port.cash) + max(x, 0.01))
+        elif kind in ('lead_psub', 'lead_pwd'):
+            # a valid future-dated direct deposit makes the portfolio clock lead the broker clock; until the
+            # broker catches up the portfolio refuses broker-level transfers and the master must stay untouched
+            later = max(b.current_dt, port.current_dt) + pd.Timedelta(minutes=30)
+            port.subscribe_funds(later, x)
+            self.cash[pid] += F(x)
+            self.hist[pid].append(('subscription', F(x), self.cash[pid]))
+            self._bump(pid, F(x), self.cash[pid])
+            before = snapshot(b)
+            if kind == 'lead_psub':
+                amt = min(1.0, b.get_account_cash_balance(cur))
+                call = lambda: b.subscribe_funds_to_portfolio(pid, amt)
+            else:
+                amt = min(1.0, max(port.cash, 0.0))
+                call = lambda: b.withdraw_funds_from_portfolio(pid, amt)
+        else:
+            raise RuntimeError('unknown bad kind %r' % kind)
+        if kind in ('neg_asub', 'neg_awd', 'neg_psub', 'neg_pwd', 'multi_unk_neg', 'neg_init') and x <= 0:
+            return
+        if kind in ('over_awd', 'over_psub', 'over_pwd') and x <= 0:
+            return
+        n_tx = len(self.txlog)
+        raised = None
+        try:
+            call()
+        except Exception as e:                                   # noqa
+            raised = e
+        del self.txlog[n_tx:]
+        if raised is None:
+            raise Violation('invalid request %s (%s, x=%r) was silently accepted' % (kind, pid, x))
+        after = snapshot(b)
+        d = diff_snap(before, after)
+        if d:
+            raise Violation('refused request %s (%s: %s) changed state: %s' % (kind, type(raised).__name__, raised, d))
+        if not isinstance(raised, exp):
+            raise Violation('refused request %s raised %s (%s); documented type is %s' % (
+                kind, type(raised).__name__, raised, '/'.join(t.__name__ for t in exp)))
+        self.seen_kinds.add(kind)
+        self.count('refusals')
+        nfill = self.counts.get('fills', 0)
+        if nfill and any(self.pend[p] for p in self.pids):
+            self.flags.add('refusal_after_fill_with_pending')
 
     # ------------------------------------------------------------------------------------------ fills
     def _apply_fills(self, n_tx):
@@ -525,7 +653,9 @@ class Harness(object):
         elif self.mode == 'C04':
             nt = 'waited_closed' in f and nfill >= 1 and 'boundary_instant' in f
         else:
-            nt = False
+            for k in self.seen_kinds:
+                cls.add('refused_' + k)
+            nt = len(self.seen_kinds) >= 3 and 'refusal_after_fill_with_pending' in f
         info = dict(self.counts)
         info['steps'] = self.nsteps
         info['valid_ops'] = self.valid_ops
